@@ -33,6 +33,16 @@ def sorted_x(rng, m, kind=None):
     return out
 
 
+def epoch_x(rng, m):
+    """integer abscissae on a large offset (epoch seconds, a counter at 10^6): exact in floats, spacing tiny relative to the
+    magnitude — relative-tolerance comparisons (np.isclose, rtol 1e-5) treat neighbouring samples as equal here"""
+    x0, step = rng.choice([(1.7e9, 60.0), (1.7e9, 300.0), (1.0e6, 1.0), (86.4e6, 30.0), (1.7e9, 1.0)])
+    out = [x0]
+    for _ in range(m - 1):
+        out.append(out[-1] + step * rng.choice([1, 1, 1, 2, 3]))
+    return out
+
+
 def loose_x(rng, m):
     """abscissae that are NOT small dyadics: decimal grids (k*0.1) and uniform grids with a tiny jitter.
     Only for units whose code never compares abscissae with == or <= against derived values."""
@@ -50,6 +60,10 @@ def values(rng, m, kind=None):
     if kind == "baseline":   # small integer variation on a large level: absolute-magnitude shortcuts show up here
         base = float(rng.choice([2 ** 20, 10 ** 6, -(2 ** 22)]))
         return [base + rng.randint(-6, 6) for _ in range(m)]
+    if kind == "burst":      # a huge sample first, small non-dyadic ones after it: running totals lose the small ones
+        big = rng.choice([4.1e11, 1.0e16, 3.3e12])
+        h = 1 if m <= 2 else rng.choice([1, 2])
+        return ([big * rng.choice([1.0, 0.8]) for _ in range(h)] + [round(rng.uniform(1, 6), 3) for _ in range(m - h)])[:m]
     if kind == "tiny":       # the same shape at a tiny scale
         return [rng.randint(-8, 8) * 2.0 ** -30 for _ in range(m)]
     if kind == "int":
